@@ -159,21 +159,6 @@ EvTx ==
         /\ pan' = pan \ r.fired /\ stall' = stall \ r.fired
         /\ UNCHANGED <<cfgVars, running, veto, nest, atCall, ncalls, callStart>>
 
-(* C01: every view of the machine agrees with every other                     *)
-ViewsAgree(ix, v) ==
-  /\ SIsUniq(v.active)
-  /\ \A i \in 1..Len(ix) :
-       LET n == ix[i]
-           act == SHas(v.active, n)
-       IN /\ IsActiveTick(v.time[i]) <=> act
-          /\ v.ticks[i] = v.time[i]
-          /\ v.clock[n] = v.time[i]
-          /\ v.is[i] = act /\ v.not[i] = ~act /\ v.any[i] = act
-          /\ (\E k \in 1..Len(v.str) : v.str[k] = <<n, v.time[i]>>) <=> act
-          /\ \E k \in 1..Len(v.strall) : v.strall[k] = <<n, v.time[i]>>
-  /\ Len(v.strall) = Len(ix)
-  /\ Len(v.str) = Len(v.active)
-
 (* fired faults of the transitions of the current call (lines after callStart) *)
 CallTxLines == {k \in (callStart + 1)..(l - 1) : Trace[k].ev = "tx"}
 FiredIn(k, S) == \E i \in 1..Len(Trace[k].hlog) :
